@@ -8,6 +8,22 @@ ALL = [f'C{i:02d}' for i in range(1, 21)]
 
 # property -> (level text, level note, technique, design section)
 CHECKS = {
+    'C06': (
+        'Lean 4 theorems over all operation lists: two lists with the same distinct operations and the same order on every wire (qubits, measurement and control '
+        'keys) differ by exchanges of adjacent independent operations (C06_same_wire_order_is_swaps: the projection lemma of trace theory, by induction on the first '
+        'list with the bubbling lemma); such exchanges preserve every semantics in which independent operations commute (C06_swaps_preserve_semantics), in particular '
+        'the state computed by the tensor action of C01 for any commutative ring of amplitudes (C06_reordering_preserves_state via C01_apply_comm); the executable '
+        'check run on real outputs implies the hypothesis (C06_check_sound). T2: the structure-only transformers (align_left / align_right / drop_empty_moments / '
+        'synchronize_terminal_measurements / stratified_circuit) must pass that check on generated circuits with uniquely tagged operations — the theorem then covers '
+        'their output — and must not change any operation; the rewriting transformers (expand_composite, eject_z, eject_phased_paulis, the single-qubit and k-qubit merging '
+        'passes, drop_negligible_operations, optimize_for_target_gateset for CZ / sqrt-iSWAP, unroll_circuit_op, add_dynamical_decoupling, defer_measurements) are compared '
+        'by the Lean reference semantics: ordered product up to global phase (C01) or exact joint record distribution (C02); tags_to_ignore, deep and argument purity are '
+        'checked on the objects.',
+        'Trusted: Lean kernel; harness + drivers; the abstraction of an operation to the wires it touches; cirq.unitary(op) (C03) and unroll_circuit_op (C12); rewriting '
+        'transformers are T2 only; gauge compiling, randomized measurements, qubit management, lightcone and symbolize transformers are not covered yet (partial).',
+        'Lean 4 proof (trace-theory projection lemma + commutation) + differential correspondence through the Lean reference semantics',
+        'DESIGN.md §3 C06',
+    ),
     'C15': (
         'Lean 4 theorems for every unit q > 0 and every integer vector (every rational multiple of pi/4): the normalisation of KAK interaction coefficients '
         '(kak_canonicalize_vector: canonical shifts in closed form, three conditional swaps, two conditional double negations, the final shift of z and the boundary '
